@@ -1053,6 +1053,12 @@ func (w *World) passPools(fns []*ssa.Function) []DFResult {
 				ok = false
 				detail += fmt.Sprintf("; some path performs %d more Put than Get", excess)
 			}
+			// no use after Put: once an object is back in the pool somebody else may own it. Deferred calls run last-in-first-out,
+			// so a deferred call that mentions the object and is registered BEFORE the deferred Put runs AFTER it.
+			if why := useAfterPut(fn, g); why != "" {
+				ok = false
+				detail += "; " + why
+			}
 			out = append(out, DFResult{Name: fmt.Sprintf("%s#pool-discipline:%s", fnName(fn), g.Name()), OK: ok,
 				Detail: detail, At: w.posOf(fn.Pos())})
 			_ = puts
@@ -1092,6 +1098,114 @@ func (w *World) maxOnPath(fn *ssa.Function, weight func(ssa.Instruction) int) in
 		return 0
 	}
 	return rec(fn.Blocks[0])
+}
+
+// useAfterPut: in fn, a value handed to Pool.Put of pool g is used afterwards - by an instruction reachable behind an explicit
+// Put, or by a deferred call registered before a deferred Put (which therefore runs after it).
+func useAfterPut(fn *ssa.Function, g *ssa.Global) string {
+	// naive-form SSA: every use of a local variable is a fresh load of its cell - identify a value with that cell
+	var root func(v ssa.Value) ssa.Value
+	root = func(v ssa.Value) ssa.Value {
+		switch x := v.(type) {
+		case *ssa.MakeInterface:
+			return root(x.X)
+		case *ssa.TypeAssert:
+			return root(x.X)
+		case *ssa.ChangeType:
+			return root(x.X)
+		case *ssa.UnOp:
+			if x.Op == token.MUL {
+				if a, ok := x.X.(*ssa.Alloc); ok {
+					return a
+				}
+			}
+		}
+		return v
+	}
+	mentions := func(ins ssa.Instruction, v ssa.Value) bool {
+		if st, ok := ins.(*ssa.Store); ok && st.Addr == v {
+			return false // re-assignment of the variable itself is not a use of the object
+		}
+		for _, op := range ins.Operands(nil) {
+			if *op == nil {
+				continue
+			}
+			if root(*op) == v {
+				return true
+			}
+			if mc, ok := (*op).(*ssa.MakeClosure); ok {
+				for _, b := range mc.Bindings {
+					if root(b) == v || b == v {
+						return true
+					}
+				}
+			}
+		}
+		return false
+	}
+	putArg := func(com *ssa.CallCommon) ssa.Value {
+		pkg, name := calleeOf(com)
+		if pkg != "sync" || name != "Pool.Put" || len(com.Args) < 2 || com.Args[0] != ssa.Value(g) {
+			return nil
+		}
+		return root(com.Args[1])
+	}
+	// position of every instruction in a linearisation that respects block order within a block
+	for _, b := range fn.Blocks {
+		for i, ins := range b.Instrs {
+			switch x := ins.(type) {
+			case *ssa.Defer:
+				v := putArg(&x.Call)
+				if v == nil {
+					continue
+				}
+				// deferred Put of v: a Defer that mentions v and executes earlier on some path (same block before it, or a
+				// dominating block) runs after the Put
+				for _, b2 := range fn.Blocks {
+					for j, ins2 := range b2.Instrs {
+						d2, ok := ins2.(*ssa.Defer)
+						if !ok || d2 == x || putArg(&d2.Call) != nil {
+							continue
+						}
+						if !mentions(d2, v) {
+							continue
+						}
+						if (b2 == b && j < i) || (b2 != b && b2.Dominates(b)) {
+							return "a deferred call registered before the deferred Put uses the pooled object: it runs after the object has been returned to the pool"
+						}
+					}
+				}
+			case *ssa.Call:
+				v := putArg(&x.Call)
+				if v == nil {
+					continue
+				}
+				// explicit Put: any later instruction of the same block, or of a block reachable from it, that mentions v
+				for _, ins2 := range b.Instrs[i+1:] {
+					if mentions(ins2, v) {
+						return "the pooled object is used after it has been returned to the pool"
+					}
+				}
+				seen := map[*ssa.BasicBlock]bool{}
+				work := append([]*ssa.BasicBlock{}, b.Succs...)
+				for len(work) > 0 {
+					c := work[len(work)-1]
+					work = work[:len(work)-1]
+					if seen[c] {
+						continue
+					}
+					seen[c] = true
+					for _, ins2 := range c.Instrs {
+						if mentions(ins2, v) {
+							return "the pooled object is used after it has been returned to the pool"
+						}
+					}
+					work = append(work, c.Succs...)
+				}
+			}
+		}
+	}
+	return ""
 }
 
 // maxOnPathSigned: like maxOnPath for weights of either sign (maximum over complete entry-to-exit paths, back edges ignored).
@@ -1499,6 +1613,10 @@ func (w *World) passPoolEscape(fns []*ssa.Function, roots []string) []DFResult {
 							if b.Name() == "append" && len(com.Args) > 0 {
 								ch = set(x, get(com.Args[0])) || ch
 							}
+							// unsafe.SliceData / unsafe.Slice / unsafe.StringData: the result points into what the argument points into
+							if (b.Name() == "SliceData" || b.Name() == "Slice" || b.Name() == "StringData") && len(com.Args) > 0 {
+								ch = set(x, whole(get(com.Args[0]))) || ch
+							}
 							break
 						}
 						if refLike(x.Type()) {
@@ -1551,6 +1669,14 @@ func (w *World) passPoolEscape(fns []*ssa.Function, roots []string) []DFResult {
 								}
 								viol[fn] = append(viol[fn], fmt.Sprintf("result %d%s holds a reference into pooled memory (return at %s)", ri, map[bool]string{true: "", false: " field " + p}[p == ""], w.posOf(x.Pos())))
 							}
+						}
+					}
+				case *ssa.Call:
+					// unsafe.String over pooled memory: a string that aliases a scratch buffer (strings are otherwise copies and are
+					// not tracked), whatever happens to it afterwards
+					if b, ok := x.Call.Value.(*ssa.Builtin); ok && report && b.Name() == "String" && len(x.Call.Args) > 0 {
+						if t := get(x.Call.Args[0]); len(t.paths) > 0 {
+							viol[fn] = append(viol[fn], fmt.Sprintf("unsafe.String over pooled memory: the string aliases a scratch buffer (at %s)", w.posOf(x.Pos())))
 						}
 					}
 				case *ssa.Store:
